@@ -213,7 +213,7 @@ def pat_union(a, b):
 
 
 PAT_STAR = ("*", "self::*", lambda n: is_elem(n))
-PAT_NODE = ("node()", "parent::node()", lambda n: n.kind != "root")
+PAT_NODE = ("node()", "parent::node()", lambda n: n.kind not in ("root", "attr"))
 PAT_TEXT = ("text()", "self::text()", lambda n: n.kind == "text")
 PAT_COMMENT = ("comment()", "self::comment()", lambda n: n.kind == "comment")
 PAT_PI = ("processing-instruction()", "self::processing-instruction()", lambda n: n.kind == "pi")
